@@ -97,7 +97,10 @@ func init() {
 		seed{Prop: "C09", Name: "literal-used-before-announced", File: "solver/solver.go",
 			Old: "\t\ts.newVar(lit.Var())\n\t\tswitch s.litStatus(lit) {", New: "\t\tst := s.litStatus(lit)\n\t\ts.newVar(lit.Var())\n\t\tswitch st {", Expect: "R9.2"},
 		seed{Prop: "C09", Name: "appendclause-never-announces", File: "solver/solver.go",
-			Old: "\t\ts.newVar(lit.Var())\n", New: "", Expect: "R9.2"},
+			Old: "\t\tlit := clause.Get(i)\n\t\ts.newVar(lit.Var())\n\t\tswitch s.litStatus(lit) {", New: "\t\tlit := clause.Get(i)\n\t\tswitch s.litStatus(lit) {",
+			More: []edit{{File: "solver/solver.go", Old: "\t\tlit := clause.Get(i)\n\t\ts.newVar(lit.Var())\n\t\tj, ok := first[lit.Var()]", New: "\t\tlit := clause.Get(i)\n\t\tj, ok := first[lit.Var()]"}}, Expect: "R9.2"},
+		seed{Prop: "C09", Name: "benign-scan-relies-on-the-earlier-announcement", File: "solver/solver.go",
+			Old: "\t\tlit := clause.Get(i)\n\t\ts.newVar(lit.Var())\n\t\tswitch s.litStatus(lit) {", New: "\t\tlit := clause.Get(i)\n\t\tswitch s.litStatus(lit) {", Expect: "", Note: "the merge of repeated variables announces every variable of the constraint before the scan"},
 		seed{Prop: "C09", Name: "appendclause-resets-status", File: "solver/solver.go",
 			Old: "\tif minW >= card { // clause is already sat\n\t\treturn\n\t}", New: "\tif minW >= card { // clause is already sat\n\t\ts.status = Indet\n\t\treturn\n\t}", Expect: "R9.3"},
 		seed{Prop: "C09", Name: "solve-forgets-unsat", File: "solver/solver.go",
